@@ -46,7 +46,8 @@ def commutes (j : Json) : Except String Json := do
   let b := toM (← J.op (← J.field j "b"))
   let atol ← J.rat (← J.field j "atol")
   let rtol ← J.rat (← J.field j "rtol")
-  .ok (J.obj [("model", Json.bool (Model.C02.commutesWith atol rtol a b))])
+  .ok (J.obj [("model", Json.bool (Model.C02.commutesWith atol rtol a b)),
+              ("exact_regime", Json.bool (Model.C02.majExactB atol rtol (mmul a b) (mmul b a)))])
 
 def pred (j : Json) : Except String Json := do
   let a ← J.op (← J.field j "a")
